@@ -353,6 +353,7 @@ func (x *Exec) applyContract(s *State, in ssa.Instruction, f *ssa.Function, fc *
 	if f == x.fn {
 		x.checkDecreases(s, fc, env, site, f)
 	}
+	x.checkReacquire(s, f, args, site)
 	for _, h := range fc.Holds {
 		id, err := x.lockIDOfExpr(s, h.E, env, pkgOf(f))
 		if err != nil {
